@@ -78,8 +78,17 @@ fn clamp_side(v: i64) -> u32 {
 }
 
 fn gen_case(s: &mut impl Src) -> (Case, u8) {
-    let class = s.below(8) as u8;
+    let class = s.below(9) as u8;
     let (sw, sh, dw, dh) = match class {
+        8 => {
+            // exactly equal aspect ratios with a rational (non-integer) scale: (a*p, a*q) -> (b*p, b*q)
+            let p = 1 + s.below(40);
+            let q = 1 + s.below(40);
+            let lim = MAXS / p.max(q);
+            let a = 1 + s.below(lim.min(2000));
+            let b = 1 + s.below(lim.min(2000));
+            (a * p, a * q, b * p, b * q)
+        }
         0 => (1 + s.below(8), 1 + s.below(8), 1 + s.below(8), 1 + s.below(8)),
         1 => (1 + s.below(MAXS), 1 + s.below(MAXS), 1 + s.below(MAXS), 1 + s.below(MAXS)),
         2 => (MAXS - s.below(4), MAXS - s.below(4), MAXS - s.below(300), MAXS - s.below(300)),
@@ -167,8 +176,8 @@ fn gen_case(s: &mut impl Src) -> (Case, u8) {
     )
 }
 
-const CLASS_NAMES: [&str; 8] = [
-    "tiny", "random", "near-max", "k-multiple±1", "g-multiple±1", "convergent", "same-aspect", "extreme-side",
+const CLASS_NAMES: [&str; 9] = [
+    "tiny", "random", "near-max", "k-multiple±1", "g-multiple±1", "convergent", "same-aspect", "extreme-side", "same-aspect-rational",
 ];
 
 fn literal_tape(c: &Case) -> Vec<u8> {
@@ -234,9 +243,17 @@ fn check_one(c: &Case, do_resize: bool) -> Result<bool, String> {
         );
         let mut r = img::new_resizer(fr::CpuExtensions::None);
         let alg = fr::ResizeAlg::Convolution(fr::FilterType::Bilinear);
-        let o1 = fr::ResizeOptions::new()
-            .resize_alg(alg)
-            .fit_into_destination(Some((c.cx, c.cy)));
+        // the builder methods in every order, and the public field set directly
+        let o1 = match (c.sw + c.dh) % 4 {
+            0 => fr::ResizeOptions::new().resize_alg(alg).fit_into_destination(Some((c.cx, c.cy))),
+            1 => fr::ResizeOptions::new().fit_into_destination(Some((c.cx, c.cy))).resize_alg(alg),
+            2 => fr::ResizeOptions::new().fit_into_destination(Some((c.cx, c.cy))).use_alpha(true).resize_alg(alg),
+            _ => {
+                let mut o = fr::ResizeOptions::new().resize_alg(alg);
+                o.cropping = fr::SrcCropping::FitIntoDestination((c.cx, c.cy));
+                o
+            }
+        };
         let o2 = fr::ResizeOptions::new().resize_alg(alg).crop(l, t, cw, ch);
         let n = (c.dw * c.dh) as usize;
         let mut d1 = img::Buf::new(n);
